@@ -1,6 +1,7 @@
 package commitlog
 
 import (
+	"io"
 	"os"
 	"sort"
 )
@@ -46,6 +47,13 @@ func findSegmentIndexByTimestamp(segments []*segment, timestamp int64) (int, err
 		// Read the first entry in the segment to determine the base timestamp.
 		var entry entry
 		if e := segments[i].Index.ReadEntryAtLogOffset(&entry, 0); e != nil {
+			if e == io.EOF && i == n-1 && i > 0 {
+				// The newest segment is empty (the active segment was just
+				// rolled): it begins after every timestamp. This is not the
+				// end of the search, the timestamp may lie in the segments
+				// before it.
+				return true
+			}
 			err = e
 			return true
 		}
